@@ -898,6 +898,7 @@ func main() {
 	h64 := map[string]string{}
 	genMask(*repo, []string{"tiny"}, filepath.Join(*out, "Mask64.v"), h64)
 	genFacts(*repo, filepath.Join(*out, "PkgFacts.v"))
+	genImp(*repo, *out, hashes)
 	var keys []string
 	for k := range hashes {
 		keys = append(keys, k)
